@@ -30,5 +30,13 @@ theorem parse_refuses_only_nonmembers (G : CFG) (w : List String) (left : Bool) 
   · next hr => exact Lem.rdSub_refuse G left fuel w _ hr ((genList_iff_derives G _ w).mpr hd)
   · split at h <;> cases h
 
+/-- without a start symbol the answer is NotParsableException, whatever the word, the direction
+and the fuel (such a grammar generates nothing, so this agrees with
+`parse_refuses_only_nonmembers`) -/
+theorem parse_no_start (G : CFG) (h : G.start = none) (w : List String) (left : Bool)
+    (fuel : Nat) : parse G w left fuel = some none := by
+  unfold parse
+  rw [h]
+
 end RecDescent
 end Pfl
